@@ -184,7 +184,8 @@ def parse_reqs(kind, text):
             c = configparser.ConfigParser()
             c.read_string(text)
             raw = c["options"].get("install_requires", "") if "options" in c else ""
-            items = [x.strip() for part in raw.split("\n") for x in part.split(",") if x.strip()] if "\n" not in raw.strip() else [x.strip() for x in raw.split("\n") if x.strip()]
+            # setuptools reads install_requires as "list-semi": one requirement per line, or ';'-separated on one line (commas do not separate)
+            items = [x.strip() for x in raw.split("\n") if x.strip()] if "\n" in raw.strip() else [x.strip() for x in raw.split(";") if x.strip()]
             return [Requirement(x).name.lower() for x in items]
         if kind == "setup.py":
             tree = ast.parse(text)
@@ -248,6 +249,9 @@ def search(ctx):
         ks = rng.sample(list(e2e.MANIFESTS), rng.randint(2, 4))
         cases.append({"manifests": [(k, rng.choice(e2e.MANIFESTS[k] + EXTRA_MANIFESTS[k])) for k in ks]})
     cases.append({"manifests": []})
+    # a manifest the parser accepts (chardet) but that is not UTF-8: it cannot be updated and must be left alone
+    cases.append({"manifests": [("requirements.txt", "requests\nflask\n".encode("utf-16"))], "expect_untouched": True})
+    cases.append({"manifests": [("setup.cfg", "[options]\ninstall_requires =\n    requests>=2\n")]})
     for c, r in zip(cases, impl.pool_map(cli_case, cases)):
         if r[0] != "ok":
             ctx.broke("c14 cli harness", r[1]); continue
@@ -259,6 +263,9 @@ def search(ctx):
             ctx.fail(dict({"kind": kind, "manifest": (r["changed"] or kinds or ["none"])[0]}, **sig), what + f" (manifests {kinds})", rep)
         if r["rc"] != [["exit", 0], ["exit", 0]]:
             fail("cli-crash", f"CLI failed {r['rc']}"); continue
+        if c.get("expect_untouched") and r["changed"]:
+            fail("undecodable-manifest-rewritten", f"a manifest that cannot be decoded as UTF-8 was rewritten: {r['manifests'][r['changed'][0]]['text_after'][:80]!r}")
+            continue
         if len(r["changed"]) > 1:
             fail("several-manifests-updated", f"more than one manifest updated: {r['changed']}")
         for k in r["changed"]:
